@@ -353,6 +353,7 @@ fn record(slot: &Slot, view: OptionsView, arg: Option<String>, calls: u64) {
 }
 
 fn run_body(k: usize, bencher: Bencher, arg: Option<String>) {
+    EPOCH.fetch_add(1, SeqCst);
     let slot = TABLE.read().unwrap()[k].clone();
     let before = CALLS.load(SeqCst);
     let body = slot.body.unwrap_or(Body::Bench);
@@ -600,22 +601,44 @@ pub struct TwinRun {
 }
 
 thread_local! {
-    static TWIN_CLOCK: Cell<u64> = const { Cell::new(0) };
+    /// (epoch, clock value, end readings taken in this epoch)
+    static TWIN_CLOCK: Cell<(u64, u64, u64)> = const { Cell::new((0, 0, 0)) };
 }
 
-/// Every reading is 100 ticks after the previous one of the same thread, so
-/// every timed section measures exactly 100 ticks.
-fn twin_reader(_is_end: bool) -> u64 {
+/// Bumped at the start of every benchmark body, so that every thread starts
+/// each benchmark with sample number 0.
+static EPOCH: AtomicU64 = AtomicU64::new(1);
+
+/// Duration in ticks (= ns) of the k-th timed section a thread takes within
+/// one benchmark.
+pub fn twin_sample_ticks(k: u64) -> u64 {
+    100 + 10 * (k % 3)
+}
+
+/// Picoseconds of the k-th sample of every thread.
+pub fn twin_sample_ps(k: u64) -> u128 {
+    twin_sample_ticks(k) as u128 * 1000
+}
+
+fn twin_reader(is_end: bool) -> u64 {
+    let epoch = EPOCH.load(SeqCst);
     TWIN_CLOCK.with(|c| {
-        let v = c.get() + 100;
-        c.set(v);
+        let (e, mut v, mut k) = c.get();
+        if e != epoch {
+            k = 0;
+        }
+        if is_end {
+            v += twin_sample_ticks(k);
+            k += 1;
+        } else {
+            v += 50;
+        }
+        c.set((epoch, v, k));
         v
     })
 }
 
 pub const TWIN_FREQUENCY: u64 = 1_000_000_000;
-/// Duration of every sample in the twin's bench mode, in picoseconds.
-pub const TWIN_SAMPLE_PS: u128 = 100_000;
 
 pub fn install_clock() {
     clock::set_reader(Some(twin_reader));
